@@ -39,7 +39,7 @@ def errName : Err → String
 def known : List String :=
   Cgp.Drive.Gw.known ++ ["trusted_chain_set", "trusted_chain_removed", "interchain_token_deployed",
     "token_deployment_started", "interchain_token_id_claimed", "interchain_transfer_sent",
-    "interchain_transfer_received", "gas_paid"]
+    "interchain_transfer_received", "gas_paid", "recv_exec"]
 
 def evsTok (evs : List Event) : String :=
   String.join (evs.map (fun e => " E@" ++ addrTok e.emitter ++ ":" ++ String.intercalate ":" (e.topics.map scvTok) ++ ":" ++ scvTok e.data))
